@@ -50,6 +50,7 @@ type POp struct {
 	Out    int    `json:"out,omitempty"`  // output index
 	Res    int    `json:"res,omitempty"`  // reservation index
 	Live   bool   `json:"live,omitempty"` // cancel: pick among live reservations (else among all ever made)
+	Like   bool   `json:"like,omitempty"` // reserve: ask for the account/asset/vote key of output Out instead of Acc/Asset/Vote
 	Adv    int    `json:"adv,omitempty"`  // advance class
 	H      int    `json:"h,omitempty"`    // height-change class
 }
@@ -139,7 +140,8 @@ func genC26(rt *rapid.T) any {
 			op = POp{Kind: opReserve,
 				Acc: rapid.IntRange(0, nAcc-1).Draw(rt, "acc"), Asset: rapid.IntRange(0, nAsset-1).Draw(rt, "asset"), Vote: rapid.IntRange(0, nVote).Draw(rt, "vote"),
 				Amt: rapid.IntRange(0, nAmtClasses-1).Draw(rt, "amtclass"), Arg: uint64(rapid.IntRange(1, 20).Draw(rt, "arg")),
-				Unconf: rapid.Bool().Draw(rt, "unconf"), Exp: rapid.IntRange(0, len(expiryOffsets)-1).Draw(rt, "exp"), Out: rapid.IntRange(0, n-1).Draw(rt, "out")}
+				Unconf: rapid.Bool().Draw(rt, "unconf"), Exp: rapid.IntRange(0, len(expiryOffsets)-1).Draw(rt, "exp"), Out: rapid.IntRange(0, n-1).Draw(rt, "out"),
+				Like: rapid.IntRange(0, 3).Draw(rt, "like") != 0}
 		case 6, 7, 8:
 			op = POp{Kind: opParticular, Out: rapid.IntRange(0, n-1).Draw(rt, "out"),
 				Unconf: rapid.Bool().Draw(rt, "unconf"), Exp: rapid.IntRange(0, len(expiryOffsets)-1).Draw(rt, "exp")}
@@ -195,6 +197,9 @@ func concretise(p *POp, m *model, nOuts int, issued []uint64) *cop {
 	switch p.Kind {
 	case opReserve:
 		op.Acc, op.Asset, op.Vote = accName(p.Acc), assetName(p.Asset), voteName(p.Vote)
+		if o := m.outs[out()]; p.Like && !o.Contract {
+			op.Acc, op.Asset, op.Vote = o.Acc, o.Asset, o.Vote
+		}
 		op.Unconf, op.Exp = p.Unconf, expiry()
 		free, held, imm := m.funds(op)
 		switch ((p.Amt % nAmtClasses) + nAmtClasses) % nAmtClasses {
@@ -576,17 +581,17 @@ func SpecC26() simkit.Spec {
 		Gen:     genC26,
 		NewPlan: func() any { return &C26Plan{} },
 		Exec:    execC26,
-		Rule: "SEQUENTIAL histories of 1-30 ops (reserve by account/asset/vote key/amount class/useUnconfirmed/expiry class, reserve-particular, cancel of live/released/unknown ids, " +
+		Rule: "SEQUENTIAL histories of 1-30 ops (reserve by account/asset/vote key (3 of 4 times those of an existing output)/amount class/useUnconfirmed/expiry class, reserve-particular, cancel of live/released/unknown ids, " +
 			"advance of virtual time by fixed spans or to just before/at/after the earliest live expiry, expiry sweep at the current instant, height change up/down/to the next maturity, " +
 			"add/remove unconfirmed, write/delete confirmed record) over 3-10 outputs spread over 1-2 accounts, 1-2 assets, 0-2 vote keys, amounts 1..1e6 with ties, valid heights around the current height, " +
 			"each output confirmed / confirmed+unconfirmed / unconfirmed / absent / contract; amount classes 1, small, exactly-free, free+1, all-mature(+1), all-visible(+1), 2^40, free-k, free/2+1, one output's amount; " +
 			"non-trivial = at least 2 successful reservations and at least one failure, cancel of a live reservation or expiry release; distinct = hash of every op, result and live-reservation state",
 		Components: map[string]string{
-			"account.utxoKeeper":                    "real (constructed by newUtxoKeeper through the add-only hook file account/verif_hooks.go; its expireWorker ticker goroutine runs on the synctest virtual clock)",
-			"wallet DB":                             "stub: verif/sim/simdisk (ordered in-memory dbm.DB); confirmed UTXO records written in the wallet's format (account.StandardUTXOKey/ContractUTXOKey, json.Marshal(account.UTXO))",
-			"chain best height":                     "stub: harness-controlled function handed to newUtxoKeeper",
-			"account.Manager / txbuilder / wallet":  "absent: the keeper's own API is driven directly (Reserve, ReserveParticular, Cancel, AddUnconfirmedUtxo, RemoveUnconfirmedUtxo, expireReservation)",
-			"clock":                                 "testing/synctest virtual clock",
+			"account.utxoKeeper":                   "real (constructed by newUtxoKeeper through the add-only hook file account/verif_hooks.go; its expireWorker ticker goroutine runs on the synctest virtual clock)",
+			"wallet DB":                            "stub: verif/sim/simdisk (ordered in-memory dbm.DB); confirmed UTXO records written in the wallet's format (account.StandardUTXOKey/ContractUTXOKey, json.Marshal(account.UTXO))",
+			"chain best height":                    "stub: harness-controlled function handed to newUtxoKeeper",
+			"account.Manager / txbuilder / wallet": "absent: the keeper's own API is driven directly (Reserve, ReserveParticular, Cancel, AddUnconfirmedUtxo, RemoveUnconfirmedUtxo, expireReservation)",
+			"clock":                                "testing/synctest virtual clock",
 		},
 		Assumptions: []string{
 			"only the sequential mode is decided at this commit: one client, no two keeper calls overlap (the expiry ticker goroutine does run concurrently in virtual time, but only while the client sleeps)",
